@@ -54,3 +54,10 @@ def fill(check, NA):
           "input lattice whose path signatures (branch cells) are counted, including zero inputs that make unselected branches NaN",
           "trusted: gcc, libm, ctypes; quick = default + each key flipped once; thorough = every combination generated and checked for completeness, pairwise covering set compiled and run; mex output not compilable here",
           "bounded exhaustive enumeration of generator configurations x functions x input lattice, bitwise differential comparison of compiled C against CasADi", "DESIGN.md section 4 C09")
+
+    check("C10", "exploration",
+          "the compiled CasADi programs of cyecca.util (square-root covariance derivative, LDL^T, UDU^T, RK4) executed by sxvm in exact rational arithmetic over complete small integer matrix lattices and judged by "
+          "exact equalities; sqrt_correct executed in 60-digit arithmetic against the textbook Kalman update; RK4 exact on all cubic-in-time fields of the lattice, degree-4 Taylor polynomial on y'=lambda y, "
+          "observed order on a rotation field; float VM bitwise conformance-gated against CasADi and double results judged",
+          "trusted: Fraction, mpmath; dimensions n<=3 (thorough 4/5), m<=2",
+          "bounded exhaustive enumeration over integer matrix lattices with exact-arithmetic interpretation of the real instruction lists", "DESIGN.md section 4 C10")
